@@ -160,6 +160,71 @@ def run(ctx):
     ctx.ob('C18.3', 'running critical path over children is a running maximum', bool(phis) and all(k == {'max'} for k in kinds.values()) and bool(kinds),
            'the loop-carried candidate for the critical path is only ever combined with max (adding children\'s paths would make the '
            'critical path exceed the work)', loc=a.loc, detail=str(kinds))
+    # shape of the two max combinations (hand mutants r6): a path through a created child is the chain prefix PLUS the child's own
+    # critical path, and the section's critical path is the larger of the best such path and the whole chain
+    def _who(ref):
+        l_ = a.insts.get(a.strip(ref)) if isinstance(ref, str) else None
+        if l_ is None or l_.op != 'load' or a.field(l_) != INFO + 't_inf':
+            return None
+        r_ = a.ap(l_.ops[0]).root
+        if same_value(a, r_, s):
+            return 's'
+        ri_ = a.get(a.strip(r_)) if isinstance(r_, str) else None
+        if ri_ is not None and ri_.op == 'load' and a.field(ri_) == 'dr_dag_node.child':
+            return 'c'
+        return 'x'
+    through = []
+    for mc in a.calls():
+        if mc.callee != 'dr_max_clock':
+            continue
+        for arg in mc.args:
+            ai = a.insts.get(a.strip(arg)) if isinstance(arg, str) else None
+            if ai is not None and ai.op == 'add' and sorted(str(_who(o)) for o in ai.ops) == ['c', 's']:
+                through.append(mc)
+    bare = [mc for mc in a.calls() if mc.callee == 'dr_max_clock' and any(_who(arg) == 'c' for arg in mc.args)]
+    ctx.ob('C18.3', 'a path through a created child = chain prefix + the child\'s critical path', bool(through) and not bare,
+           'the candidate fed to the running maximum is s->info.t_inf (the chain up to the create) + c->info.t_inf; the child\'s path '
+           'alone forgets everything that ran before the task was created', loc=((bare or through or [a])[0].loc))
+    finals = [st for st in tinf_st if lib.loop_containing(a, st) is None]
+    okf = False
+    for st in finals:
+        vi = a.insts.get(a.strip(st.ops[0])) if isinstance(st.ops[0], str) else None
+        if vi is not None and vi.op == 'call' and vi.callee == 'dr_max_clock' and len(vi.args) == 2:
+            whos = [_who(x) for x in vi.args]
+            run_ = [x for x in vi.args if isinstance(x, str) and a.strip(x) in phis or
+                    (isinstance(x, str) and set(a.sources(x)) & phis)]
+            if 's' in whos and run_:
+                okf = True
+    ctx.ob('C18.3', 'section critical path = max(best path through a child, the whole chain)', okf,
+           'after the loop s->info.t_inf = dr_max_clock(running maximum, s->info.t_inf): either side alone under-reports sections '
+           'whose serial chain (or whose child) dominates', loc=(finals[0].loc if finals else a.loc))
+    # every accumulating loop over a counter array covers the whole array (the zeroing loops are checked below)
+    for name in ('logical_node_counts', 'logical_edge_counts'):
+        alen = (m.struct_field('dr_dag_node_info', name) or {}).get('nelem')
+        adds_ = [st for st in a.stores_to(INFO + name) if same_value(a, a.ap(st.ops[1]).root, s) and const_int(st.ops[0]) is None]
+        nloop = 0
+        for st in adds_:
+            ix = [x for x in a.ap(st.ops[1]).steps if x[0] == 'i']
+            lp_ = lib.loop_containing(a, st)
+            if not ix or not isinstance(ix[-1][1], str) or lp_ is None:
+                continue
+            ph = a.get(a.strip(ix[-1][1]))
+            if ph is None or ph.op != 'phi':
+                iv = [a.get(k_) for k_ in a.sources(ix[-1][1]) if a.get(k_) is not None and a.get(k_).op == 'phi']
+                ph = iv[0] if len(iv) == 1 else None
+            if ph is None:
+                continue
+            # the innermost loop whose header holds the induction variable
+            okb_ = False
+            for ic in a.order:
+                if ic.op == 'icmp' and ic.pred in ('slt', 'ult') and ic.block.id == ph.block.id and const_int(ic.ops[1]) == alen and \
+                        lib.same_expr(a, ic.ops[0], ph.id) and any(const_int(v_) == 0 for v_, b_ in ph.d['incoming']):
+                    okb_ = True
+            nloop += 1
+            ctx.ob('C18.3', '%s: accumulation loop covers all %s entries' % (name, alen), okb_,
+                   'a loop that adds a subgraph\'s counters into the summary runs from 0 to the array length: stopping one short '
+                   'drops a whole kind from every contracted subgraph', loc=st.loc)
+        ctx.ob('C18.3', '%s: accumulation loops found' % name, nloop >= 2, 'chain and child accumulation loops', loc=a.loc, detail=str(nloop))
     # the accumulation starts from zero: a summary node is recycled, so whatever it held before must not enter the sums
     chain_loads = [l for l in a.loads_of('dr_dag_node_list.head')]
     for name in ('t_1', 't_inf'):
@@ -828,6 +893,12 @@ def combine_op(f, ref):
 
 INL = 'src/profiler/dag_recorder_inl.h'
 MUTANTS = [
+    {'name': 'path through a created child forgets the chain prefix (hand mutant r6)', 'expect': 'C18.3',
+     'edits': [(INL, "            t_inf = dr_max_clock(s->info.t_inf + c->info.t_inf, t_inf);", "            t_inf = dr_max_clock(c->info.t_inf, t_inf);")]},
+    {'name': 'section critical path ignores the chain when a child exists (hand mutant r6)', 'expect': 'C18.3',
+     'edits': [(INL, "        s->info.t_inf = dr_max_clock(t_inf, s->info.t_inf);", "        s->info.t_inf = t_inf ? t_inf : s->info.t_inf;")]},
+    {'name': 'node counts of chain elements summed one kind short (hand mutant r6)', 'expect': 'C18.3',
+     'edits': [(INL, "          for (k = 0; k < dr_dag_node_kind_section; k++) {\n            s->info.logical_node_counts[k] += x->info.logical_node_counts[k];", "          for (k = 0; k < dr_dag_node_kind_section - 1; k++) {\n            s->info.logical_node_counts[k] += x->info.logical_node_counts[k];")]},
     {'name': 'edge report recognises contracted nodes by cur_node_count (seed5 C18/m1)', 'expect': 'C18.4',
      'edits': [('src/profiler/gen_stat.c', "    if (t->info.kind >= dr_dag_node_kind_section\n\t&& t->subgraphs_begin_offset == t->subgraphs_end_offset) {\n      for (k = 0; k < dr_dag_edge_kind_max; k++) {", "    if (t->info.kind >= dr_dag_node_kind_section\n\t&& t->info.cur_node_count == 1) {\n      for (k = 0; k < dr_dag_edge_kind_max; k++) {")]},
     {'name': 'edge counts zeroed before the kind-indexed node-count store (seed4 C18/m1)', 'expect': 'C18.3',
